@@ -10,6 +10,7 @@ package main
 
 import (
 	"fmt"
+	"os"
 	"strings"
 	"time"
 
@@ -261,6 +262,10 @@ func hasAbrupt(cc *mini.CFCase) bool {
 	return false
 }
 
+// fineSignatures (VERIF_C14_FINE=1, development aid): do not collapse the clause-exit family into two signatures,
+// so that a change of the compiler can be compared with the baseline in detail.
+var fineSignatures = os.Getenv("VERIF_C14_FINE") != ""
+
 // method names must be unique within the worker process: definitions of earlier programs stay in the
 // process-global Elk runtime and calls would bind to them.
 var nameSeq int
@@ -305,7 +310,7 @@ func runChunk(r *engine.R, cs []*mini.CFCase) {
 			r.Outcome("rejected by the checker")
 		case u.Panic != "":
 			sig := feature + "go-panic " + shortPanic(u.Panic)
-			if feature != "" {
+			if feature != "" && !fineSignatures {
 				// where the unbalanced value stack is finally noticed varies with the surrounding code
 				sig = feature + "go-panic later in the function"
 			}
@@ -314,7 +319,7 @@ func runChunk(r *engine.R, cs []*mini.CFCase) {
 			r.Violation(feature+"unexpected error "+u.ErrClass, fmt.Sprintf("shape %s\n%s\nexpected output:\n%s\nuncaught error: %s\noutput so far:\n%s", cc.Shape(), srcs[i], want, u.Err, u.Out), srcs[i])
 		case u.Out != want:
 			sig, where := mismatchSig(cc, lines(want), lines(u.Out))
-			if feature != "" && !strings.Contains(sig, "expected finally@do(hole=catch-clause+finally)") {
+			if feature != "" && !fineSignatures && !strings.Contains(sig, "expected finally@do(hole=catch-clause+finally)") {
 				sig = "trace diverges later in the function"
 			}
 			r.Violation(feature+sig, fmt.Sprintf("shape %s\n%s\n%s\nexpected trace: %s\nobserved trace: %s", cc.Shape(), srcs[i], where, strings.Join(lines(want), " "), strings.Join(lines(u.Out), " ")), srcs[i])
